@@ -111,11 +111,21 @@ theorem stepOk_others_untouched (names : List Bytes) (pre post : Store) (op : Op
       simp only [stepOk, Op.name, Bool.and_eq_true] at h
     · exact h.2
     · exact h.2
-    all_goals exact h
+    all_goals exact h.1
   have := List.all_eq_true.mp hu k hk
   have hb : (k == n) = false := by simpa using hkn
   simp only [hb, Bool.false_or, layerEq, Bool.and_eq_true, beq_iff_eq] at this
   exact ⟨(Dir.optBeq_iff _ _).mp this.1.1, this.1.2, this.2⟩
+
+/-- **Writers.** A successful `write_metadata` replaces exactly the metadata (types, directory, SBOMs untouched); a
+successful `write_sboms` replaces exactly the SBOM set; an operation without a layer reference changes nothing. -/
+theorem stepOk_writers (names : List Bytes) (pre post : Store) (op : Op) (n : Bytes) (hn : op.name = some n)
+    (hreq : isRequest op = false) (hr : op ≠ .restore) (out : Out) (log : List CbCall)
+    (h : stepOk names pre op out log post = true) : writeOk (sget pre n) (sget post n) op out = true := by
+  cases op <;> simp only [Op.name, Option.some.injEq, reduceCtorEq, isRequest, Bool.true_eq_false] at hn hreq <;>
+    first
+    | (subst hn; simp only [stepOk, Op.name, Bool.and_eq_true] at h; exact h.2)
+    | exact absurd rfl hr
 
 /-- The history the existing examples miss (D1): cached request, write an SBOM, uncached request. In the model of the
 repaired code the layer reported as empty carries no SBOM. -/
